@@ -6,7 +6,7 @@ class Engine(DbEngine):
     prop = 'C09'
     profiles = ('debug',)
     weights = {'new': 2, 'addr': 10, 'resubmit': 2, 'delete': 1.5, 'remove': 1.5, 'query': 1, 'qown': 1, 'reopen': 0.2}
-    aspects = {'addrs.find', 'query', 'ids.has', 'ids.hash', 'store.result', 'stats.main'}
+    aspects = {'addrs.find', 'query', 'ids.has', 'ids.hash', 'store.result', 'store.errclass', 'stats.main'}
     quick = (200, 35)
     thorough = (5000, 80)
     rule = "address-heavy histories: stores at the same and neighbouring addresses (other author / other kind / other d) in every timestamp order (older, newer, equal, resubmitted, after removal), boundary kinds 0,3,9999,10000,19999,20000,29999,30000,39999,40000, d values empty, 'x','x\\\\0','x\\\\0\\\\0', 181/182/183-byte values sharing a 182-byte prefix, 476/477 bytes, second d tags. oracle: store result and every id's/address's observation equal the abstract store (at most one holder per address by construction there). Also the exhaustive 65536-kind classification sweep. non-trivial = history with >= 2 stores"
